@@ -52,7 +52,7 @@ Init == \E i \in 1..Len(Programs) : InitSem(i, <<>>, FALSE)
 Next == SemNext
 EmitInv == (EmitOn /\ Final) =>
    Emit([fam |-> "ops", cls |-> Cases[pid].c, key |-> Cases[pid].key, pid |-> pid,
-         toks |-> Compact(Yield(MinParen(P))), stdin |-> stdin, repl |-> repl,
+         toks |-> Compact(Yield(MinParen(P))), tree |-> P, stdin |-> stdin, repl |-> repl,
          status |-> status, why |-> why, out |-> out, diags |-> diags, natlog |-> natlog, steps |-> steps])
 
 (* laws of the operator tables, checked over the whole pool by TLC when the model is loaded *)
